@@ -9,6 +9,7 @@ literals are converted by the fixed pipeline quotes-stripped -> newline normalis
 ascii/backslashreplace -> unicode-escape with no other rewrite of the text; adjacent string
 tokens are concatenated by the parser; constants are re-emitted with repr() (finite floats
 with str()).  Also: every spelling visit_Const writes goes through str() / repr() only.  
+Also: TemplateExpression.__call__ substitutes None only for an Undefined result (never by truthiness).  
 Not decided: equality of the decoded string value with Python's for every
 escape sequence (depends on the codec's behaviour).
 """
